@@ -109,7 +109,11 @@ pub(crate) fn validate(input: &DataType) -> Result<()> {
     } else {
         let mut root_err = syn::Error::new(Span::call_site(), "Cannot expand o2o macro");
 
-        errors.iter().for_each(|(err, sp)| root_err.combine(syn::Error::new(*sp, err)));
+        // `errors` is a HashMap: report in a stable (sorted) order so that the diagnostics do not depend on the hash seed
+        let mut errors: Vec<(&String, &Span)> = errors.iter().collect();
+        errors.sort_by(|a, b| a.0.cmp(b.0));
+
+        errors.iter().for_each(|(err, sp)| root_err.combine(syn::Error::new(**sp, err)));
 
         Err(root_err)
     }
